@@ -662,6 +662,10 @@ impl ImageHandler for KittyImageHandler {
             ?img,
             "[KittyImageHandler.draw]"
         );
+        if img.size().is_empty() {
+            // nothing to show, and it is not possible to transmit empty image
+            return Ok(());
+        }
         let img_id = kitty_image_id(img);
 
         // q   - suppress response from the terminal 1 - OK only, 2 - All.
